@@ -216,6 +216,7 @@ func (w *World) ProduceBlock(dtSec int, miss []int) {
 			w.noteMismatch("events", fmt.Sprintf("EndBlock events differ on replica %d at height %d", i, h))
 		}
 	}
+	w.checkByzantineBound()
 	for _, o := range w.activeOracles() {
 		o.AfterEnd(w)
 		if w.Stopped() {
@@ -355,3 +356,24 @@ func anteRejected(r *TxResult) bool {
 // isFork: replica i is the chain restarted from an exported genesis (its history, hence its app hash and
 // height-dependent events, legitimately differ; tx results and bridge state must not).
 func (w *World) isFork(i int) bool { return w.Forked && i == w.ForkAt }
+
+// checkByzantineBound: the properties promise safety against a Byzantine MINORITY. Validators that have sent
+// a false claim are Byzantine; if stake churn or jailing of others lifts their share of the bonded power to
+// a third or more, what gets applied is no longer owed to be the truth, and the oracles that compare the hub
+// with the external ground truth stop judging this run (Tainted).
+func (w *World) checkByzantineBound() {
+	if w.Tainted || len(w.ByzVals) == 0 {
+		return
+	}
+	st := w.ReadState()
+	byz := sdk.ZeroInt()
+	for _, k := range sortedKeys(w.ByzVals) {
+		if va, err := sdk.ValAddressFromBech32(k); err == nil {
+			byz = byz.Add(sdk.NewInt(st.LastValidatorPower(va)))
+		}
+	}
+	if byz.IsPositive() && byz.MulRaw(100).GTE(st.LastTotalPower().MulRaw(34)) {
+		w.Tainted = true
+		w.St.Probe("byzantine-power-above-bound")
+	}
+}
